@@ -138,7 +138,20 @@ pub fn gen_doc(t: &mut Tape) -> Doc {
                     if t.chance(60) {
                         rest.push_str(&format!(",{}", (0..=rep).map(|_| t.below(16).to_string()).collect::<Vec<_>>().join("|")));
                         if t.chance(70) {
-                            rest.push_str(&format!(",{}", (0..=rep).map(|_| format!("{}:{}", t.below(4), t.below(4))).collect::<Vec<_>>().join("|")));
+                            rest.push_str(&format!(
+                                ",{}",
+                                (0..=rep)
+                                    .map(|_| {
+                                        if t.chance(25) {
+                                            // a node set that also specifies custom index / volume / file name
+                                            format!("{}:{}:{}:{}:{}", t.below(4), t.below(4), t.below(4), t.pick(&[0, 40, 70, 100]), t.pick(&["", "", "n.wav"]))
+                                        } else {
+                                            format!("{}:{}", t.below(4), t.below(4))
+                                        }
+                                    })
+                                    .collect::<Vec<_>>()
+                                    .join("|")
+                            ));
                             if t.chance(60) {
                                 rest.push_str(ex);
                             }
@@ -449,6 +462,17 @@ fn add_exact_boundaries(d: &mut Doc, t: &mut Tape) -> bool {
     if cands.is_empty() {
         return false;
     }
+    // a break that starts (or ends) bit-exactly at such a time minus the 5 ms, i.e. at a slider's end / node time
+    if t.chance(30) {
+        let x = cands[t.below(cands.len())] - 5.0;
+        if x.is_finite() {
+            if t.chance(50) {
+                d.breaks.push((x, x + 100.0 + t.below(2000) as f64));
+            } else {
+                d.breaks.push((x - 100.0 - t.below(2000) as f64, x));
+            }
+        }
+    }
     let n = 1 + t.below(3);
     for _ in 0..n {
         let x = cands[t.below(cands.len())];
@@ -470,6 +494,19 @@ fn add_exact_boundaries(d: &mut Doc, t: &mut Tape) -> bool {
         d.tps.push((x, format!("-100,4,{},{},{},0,{}", 1 + t.below(3), t.pick(&[0, 1, 2]), t.pick(&[100, 60, 30, 45]), t.below(2))));
     }
     true
+}
+
+/// a document that always went through the exact-boundary pass (used by other properties' map-level families)
+pub fn gen_case_exact(t: &mut Tape) -> (Doc, f64) {
+    let (mut d, mut k) = gen_case_v14(t);
+    d.ver = *t.pick(VERSIONS);
+    if add_exact_boundaries(&mut d, t) {
+        k = 0.0;
+    }
+    if d.exact_only {
+        k = 0.0;
+    }
+    (d, k)
 }
 
 fn gen_case_v14(t: &mut Tape) -> (Doc, f64) {
